@@ -134,6 +134,8 @@ impl Tree {
 impl Drop for Tree {
     fn drop(&mut self) {
         let _ = std::fs::remove_dir_all(&self.root);
+        // the per-process parent goes too once it is empty
+        let _ = std::fs::remove_dir(work_root());
     }
 }
 
